@@ -472,7 +472,7 @@ def deck():
 
 # value-operation material (C05)
 VALUE_POOL = {
-    "int": [1, "2", "3.7", 2.9, True, "x", "", None, [1, 2], ["1", "x"], [1, "x"], "[1, 2]", "[1,x]", 10 ** 20, "1e3", "(1;2)",
+    "int": [1, "2", "3.7", "2.5e3", "-3.2e1", "7.5e-1", 2.9, True, "x", "", None, [1, 2], ["1", "x"], [1, "x"], "[1, 2]", "[1,x]", 10 ** 20, "1e3", "(1;2)",
             {"a": 1}, b"5", dt.date(2020, 1, 1), float("nan"), " 7 ", float("inf"), "inf", "1e999", 10 ** 400, [1, float("inf")]],
     "float": [1.5, "2.5", 1, "x", "", None, [1.0, "2"], [1.5, "x"], "[1.5, 2]", "nan", "1e400", True, "1,5", dt.time(1, 2, 3), 10 ** 400, [1.5, 10 ** 400],
               float("inf"), "-inf", -0.0, 0.1 + 0.2, 1.0 / 3, 1234567.1234567891, [2.0 / 3, 1e-17 + 1e-33], 5e-324, 1.7976931348623157e308],
